@@ -331,8 +331,10 @@ def extract_tune(tree):
         raise Unrecognised("_tune_core: while loop not found")
     add("guard", ["step", "min_step", "low_limit", "next_pos", "high_limit"], [], "Bool", loop.test, loop.lineno)
     fin = next(it, None)
-    if not (isinstance(fin, ast.If) and _u(fin.test) == "peak_position is not None" and not fin.orelse and [_u(s) for s in fin.body] == ["yield from bps.mv(motor, peak_position)"]):
+    # finally: `if peak_position is not None: peak_position = <clamp>; yield from bps.mv(motor, peak_position)`
+    if not (isinstance(fin, ast.If) and _u(fin.test) == "peak_position is not None" and not fin.orelse and len(fin.body) == 2 and _u(fin.body[1]) == "yield from bps.mv(motor, peak_position)"):
         raise Unrecognised("_tune_core: final move to peak_position not recognised")
+    add("parkPos", ["peak_position", "low_limit", "high_limit"], [], "Rat", _assign_to(fin.body[0], "peak_position", "final park"), fin.body[0].lineno)
     if next(it, None) is not None:
         raise Unrecognised("_tune_core: unexpected trailing statement")
 
